@@ -3,6 +3,7 @@
 package streams
 
 import (
+	"context"
 	"crypto/ecdsa"
 	"crypto/elliptic"
 	crand "crypto/rand"
@@ -20,6 +21,8 @@ import (
 	"os"
 	"path/filepath"
 	"strings"
+	"sync"
+	"sync/atomic"
 	"syscall"
 	"time"
 
@@ -53,6 +56,17 @@ import (
 //                 The Casketfile goes through the real front end (parser, InspectServerBlocks, every directive's setup
 //                 function; parsing callbacks skipped), then the pure stages of activateHTTPS in its order with
 //                 enableAutoHTTPS(…, false), then the real MakeServers.  Nothing contacts a CA.
+//   c15.inspect   addr,addr,…                 -> ok <key>|<site string>;…   or   error:<class>
+//                 every address as the key of its own (empty) server block, through the real loader and the real
+//                 InspectServerBlocks: the duplicate bookkeeping ("duplicate site key", "duplicate site address");
+//                 key = Address.Key() of the stored address, site string = Address.String() with the default port filled in.
+//   c15.activate  blocks                      -> same answer format as c15.sites
+//                 The same Casketfile front end, but then the REAL activateHTTPS, reached through the real parsing-callback
+//                 registry (the callbacks registered for "tls"), followed by the real MakeServers.  So that nothing can reach
+//                 a CA: every site's certmagic manager (and certmagic.Default) gets a dummy issuer that refuses to issue and a
+//                 storage in a temp dir, pre-seeded with a long-lived self-signed certificate for every declared host — with
+//                 the certificate "already in storage" ObtainCertAsync is a no-op, enableAutoHTTPS(…, true) loads it from disk,
+//                 RenewManagedCertificates finds nothing to renew; the certificates name no OCSP responder.
 //   c15.redirect  redirport hostheader target -> <status> <Location>    (redirPlaintextHost's handler on a request read by http.ReadRequest)
 // ---------------------------------------------------------------------------
 
@@ -472,6 +486,210 @@ func c15SitesEval(f []string) (string, []string) {
 	return strings.Join(out, ";"), tags
 }
 
+// ---- c15.inspect ----
+
+func c15InspectEval(f []string) (string, []string) {
+	if len(f) != 1 {
+		return "bad-case", nil
+	}
+	var b strings.Builder
+	ks := strings.Split(f[0], ",")
+	for _, k := range ks {
+		a := c15UnQ(k)
+		if !c15InAddrDomain(a) || a == "" {
+			return "out-of-model", []string{"trivial-out-of-model"}
+		}
+		b.WriteString(a + " {\n}\n")
+	}
+	inst, ctx, err := casket.VerifC15Load(casket.CasketfileInput{Filepath: "Testfile", Contents: []byte(b.String()), ServerTypeName: "http"})
+	defer inst.ShutdownCallbacks()
+	if err != nil {
+		c := c15ErrClass(err)
+		tags := []string{c, fmt.Sprintf("n=%d", len(ks))}
+		if c != "error:dupkey" && c != "error:dupaddr" {
+			tags = append(tags, "trivial-not-a-duplicate-error")
+		}
+		return c, tags
+	}
+	var out []string
+	for _, c := range httpserver.VerifC15Configs(ctx) {
+		filled := c.Addr
+		if filled.Port == "" {
+			filled.Port = httpserver.Port
+		}
+		out = append(out, c15Q(c.Addr.Key())+"|"+c15Q(filled.String()))
+	}
+	return "ok " + strings.Join(out, ";"), []string{"accepted", fmt.Sprintf("n=%d", len(ks))}
+}
+
+// ---- c15.activate ----
+
+// c15NoIssuer is installed as the only issuer of every certmagic config: it never talks to anybody.
+type c15NoIssuer struct{}
+
+var c15IssuerCalls int64
+
+func (c15NoIssuer) Issue(ctx context.Context, csr *x509.CertificateRequest) (*certmagic.IssuedCertificate, error) {
+	atomic.AddInt64(&c15IssuerCalls, 1)
+	return nil, certmagic.ErrNoRetry{Err: fmt.Errorf("verification harness: no certificate is ever issued")}
+}
+func (c15NoIssuer) IssuerKey() string { return "verif-no-issuer" }
+
+var (
+	c15Storage    *certmagic.FileStorage
+	c15SeedMu     sync.Mutex
+	c15Seeded     = map[string]bool{}
+	c15SeedKey    *ecdsa.PrivateKey
+	c15SeedKeyPEM []byte
+	c15OldDefault struct {
+		issuers []certmagic.Issuer
+		storage certmagic.Storage
+	}
+)
+
+func c15ActivateSetup() error {
+	if err := c15Setup(); err != nil {
+		return err
+	}
+	c15Storage = &certmagic.FileStorage{Path: filepath.Join(c15Dir, "storage")}
+	key, err := ecdsa.GenerateKey(elliptic.P256(), crand.Reader)
+	if err != nil {
+		return err
+	}
+	kb, err := x509.MarshalECPrivateKey(key)
+	if err != nil {
+		return err
+	}
+	c15SeedKey, c15SeedKeyPEM = key, pem.EncodeToMemory(&pem.Block{Type: "EC PRIVATE KEY", Bytes: kb})
+	c15OldDefault.issuers, c15OldDefault.storage = certmagic.Default.Issuers, certmagic.Default.Storage
+	certmagic.Default.Issuers = []certmagic.Issuer{c15NoIssuer{}}
+	certmagic.Default.Storage = c15Storage
+	return nil
+}
+
+func c15ActivateTeardown() {
+	certmagic.Default.Issuers, certmagic.Default.Storage = c15OldDefault.issuers, c15OldDefault.storage
+	c15Seeded = map[string]bool{}
+	c15Teardown()
+}
+
+// c15Seed puts a certificate for name into the temp storage (once), the way certmagic stores an obtained one.
+func c15Seed(name string) {
+	if name == "" || !certmagic.SubjectQualifiesForCert(name) {
+		return
+	}
+	c15SeedMu.Lock()
+	defer c15SeedMu.Unlock()
+	if c15Seeded[name] {
+		return
+	}
+	c15Seeded[name] = true
+	tpl := &x509.Certificate{SerialNumber: big.NewInt(2), Subject: pkix.Name{CommonName: "verif"},
+		NotBefore: time.Now().Add(-time.Hour), NotAfter: time.Now().Add(90 * 24 * time.Hour)}
+	if ip := net.ParseIP(name); ip != nil {
+		tpl.IPAddresses = []net.IP{ip}
+	} else {
+		tpl.DNSNames = []string{name}
+	}
+	der, err := x509.CreateCertificate(crand.Reader, tpl, tpl, &c15SeedKey.PublicKey, c15SeedKey)
+	if err != nil {
+		return
+	}
+	ik := c15NoIssuer{}.IssuerKey()
+	ctx := context.Background()
+	c15Storage.Store(ctx, certmagic.StorageKeys.SiteCert(ik, name), pem.EncodeToMemory(&pem.Block{Type: "CERTIFICATE", Bytes: der}))
+	c15Storage.Store(ctx, certmagic.StorageKeys.SitePrivateKey(ik, name), c15SeedKeyPEM)
+	c15Storage.Store(ctx, certmagic.StorageKeys.SiteMeta(ik, name), []byte(fmt.Sprintf(`{"sans":[%q],"issuer_data":null}`, name)))
+}
+
+func c15ActivateEval(f []string) (string, []string) {
+	if len(f) != 1 {
+		return "bad-case", nil
+	}
+	text, _, ok := c15Casketfile(f[0])
+	if !ok {
+		return "bad-case", nil
+	}
+	for _, blk := range strings.Split(f[0], ";") {
+		for _, k := range strings.Split(strings.Split(blk, "|")[0], ",") {
+			if !c15InAddrDomain(c15UnQ(k)) {
+				return "out-of-model", []string{"trivial-out-of-model"}
+			}
+		}
+	}
+	inst, ctx, err := casket.VerifC15Load(casket.CasketfileInput{Filepath: "Testfile", Contents: []byte(text), ServerTypeName: "http"})
+	defer inst.ShutdownCallbacks()
+	if err != nil {
+		c := c15ErrClass(err)
+		return c, []string{"trivial-" + c}
+	}
+	cfgs := httpserver.VerifC15Configs(ctx)
+	n := len(cfgs)
+	decl := make([]string, n)
+	for i, c := range cfgs {
+		// nothing may reach a CA: dummy issuer, temp storage, certificate already "obtained"
+		if c.TLS.Manager != nil {
+			c.TLS.Manager.Issuers = []certmagic.Issuer{c15NoIssuer{}}
+			c.TLS.Manager.Storage = c15Storage
+		}
+		c15Seed(c.TLS.Hostname)
+		od := c.TLS.Manager != nil && c.TLS.Manager.OnDemand != nil
+		decl[i] = "d=" + strings.Join([]string{c15Q(c.Addr.Scheme), c15Q(c.Addr.Host), c15Q(c.Addr.Port), c15Q(c.ListenHost), c15Q(c.TLS.ACMEEmail),
+			c15Bit(c.TLS.Enabled) + c15Bit(c.TLS.Manual) + c15Bit(c.TLS.SelfSigned) + c15Bit(c.TLS.NoRedirect) + c15Bit(od)}, "|")
+	}
+	// the real thing: the parsing callbacks registered for the tls directive, i.e. activateHTTPS
+	if err := casket.VerifC15RunParsingCallbacks(inst, "tls"); err != nil {
+		if os.Getenv("VERIF_TRACE") != "" {
+			fmt.Fprintln(os.Stderr, "c15.activate:", err)
+		}
+		return "error:activate", []string{"activate-error"}
+	}
+	if atomic.LoadInt64(&c15IssuerCalls) > 0 {
+		// cannot happen on a tree that obtains certificates for managed sites only (they are all in storage)
+		return "ISSUER-CALLED", []string{"issuer-called"}
+	}
+	all := httpserver.VerifC15Configs(ctx)
+	if len(all) < n {
+		return "error:configs-lost", nil
+	}
+	// makePlaintextRedirects does not touch the declared configs: port and Enabled are still as enableAutoHTTPS left them
+	enabled := make([]string, n)
+	for i := 0; i < n; i++ {
+		enabled[i] = "e=" + c15Q(all[i].Addr.Port) + "|" + c15Bit(all[i].TLS.Enabled)
+	}
+	_, mkErr := httpserver.VerifC15MakeServers(ctx)
+	var out []string
+	nTLS, nManaged := 0, 0
+	for i, c := range all {
+		fin := "f=" + strings.Join([]string{c15Q(c.Addr.Scheme), c15Q(c.Addr.Host), c15Q(c.Addr.Port), c15Bit(c.TLS.Enabled)}, "|")
+		if c.TLS.Enabled {
+			nTLS++
+		}
+		if i < n {
+			if c != cfgs[i] {
+				return "error:configs-replaced", nil
+			}
+			if c.TLS.Managed {
+				nManaged++
+			}
+			out = append(out, decl[i]+"|m="+c15Bit(c.TLS.Managed)+"|"+enabled[i]+"|"+fin+"|r=-")
+		} else {
+			out = append(out, "d=-|m=-|"+fin+"|r="+c15ProbeLocation(c))
+		}
+	}
+	tags := []string{fmt.Sprintf("sites=%d", n), fmt.Sprintf("redirects=%d", len(all)-n)}
+	if nManaged > 0 {
+		tags = append(tags, "some-managed")
+	}
+	if nTLS == 0 {
+		tags = append(tags, "trivial-no-tls")
+	}
+	if mkErr != nil {
+		tags = append(tags, "makeservers-error")
+	}
+	return strings.Join(out, ";"), tags
+}
+
 // ---- c15.redirect ----
 
 func c15RedirectEval(f []string) (string, []string) {
@@ -531,5 +749,7 @@ func init() {
 	hx.Register(&hx.Stream{ID: "C15", Name: "c15.qualify", Gen: c15QualifyGen, Eval: c15QualifyEval})
 	hx.Register(&hx.Stream{ID: "C15", Name: "c15.addr", Gen: c15AddrGen, Eval: c15AddrEval})
 	hx.Register(&hx.Stream{ID: "C15", Name: "c15.sites", Gen: c15SitesGen, Eval: c15SitesEval, Setup: c15Setup, Teardown: c15Teardown})
+	hx.Register(&hx.Stream{ID: "C15", Name: "c15.inspect", Gen: c15InspectGen, Eval: c15InspectEval, Setup: c15Setup, Teardown: c15Teardown})
+	hx.Register(&hx.Stream{ID: "C15", Name: "c15.activate", Gen: c15ActivateGen, Eval: c15ActivateEval, Setup: c15ActivateSetup, Teardown: c15ActivateTeardown})
 	hx.Register(&hx.Stream{ID: "C15", Name: "c15.redirect", Gen: c15RedirectGen, Eval: c15RedirectEval, Setup: c15Setup, Teardown: c15Teardown})
 }
